@@ -181,7 +181,7 @@ CLAIMED = {
              "(C09_send_queue_drained; the pre-D32 shape strands: C09_send_queue_return_strands). Tied to the code by cutting streams at every offset on the in-memory rig and over "
              "real loopback sockets, each library call under a deadline so that a hang is a violation; plus directed schedules that the load tests turned up (D35-D38): disable() "
              "while a peer connects / while the active side's attempt succeeds / racing with the peer's close, a slow application handler for 'disconnected' while the peer is back "
-             "at once, an active endpoint reconnecting with its Select.req open, application threads with failing sends while the peer closes. The framing loop HsmsProtocol._process_received_data is translated statement by statement on every run (Gen/RxLoop.v) and proved equal to the model's drain for every buffer (C09_receive_loop_code_is_model).",
+             "at once, an active endpoint reconnecting with its Select.req open, application threads with failing sends while the peer closes. The framing loop HsmsProtocol._process_received_data is translated statement by statement on every run (Gen/RxLoop.v) and proved equal to the model's drain for every buffer (C09_receive_loop_code_is_model). HsmsProtocol._on_connected / _on_disconnecting / _on_disconnected are read statement by statement on every run (Gen/Lifecycle.v): carried out on the model's state they are the model's connect and close steps, in the orders the repairs established (C09_lifecycle_code_is_model, C09_lifecycle_orders).",
         note=NOTE_COMMON + " Partial: that the disconnect handling and disable() RETURN is runtime behaviour no Gallina model exhibits - it is observed (deadlines, live threads, send queue), "
              "not proven; the theorems cover the state the endpoint is left in and the send queue. Forced interleavings wrap a thread object's is_alive() or one attribute read; "
              "everything else in those rounds is the real connection code on loopback TCP.",
